@@ -2,6 +2,7 @@ package keyvalue
 
 import (
 	"context"
+	"errors"
 	"io"
 	"path"
 	"time"
@@ -56,8 +57,31 @@ func (f *fileData) ModTime() time.Time {
 	return f.runOnceFileRecord.ModTime()
 }
 
-// getFile returns a file for 'path' if it exists, os.ErrNotExist otherwise
+// getFile returns a file for 'path' if it exists, os.ErrNotExist otherwise.
+// If 'path' leads through something that is not a directory, the error is ErrNotDir instead, like in os.
 func (fs *FS) getFile(path string) (*file, error) {
+	f, err := fs.getFileRecord(path)
+	return f, fs.notExistOrNotDir(path, err)
+}
+
+// notExistOrNotDir refines a "not exist" error for 'name': if an ancestor exists and is not a directory, returns ErrNotDir.
+func (fs *FS) notExistOrNotDir(name string, err error) error {
+	if !errors.Is(err, hackpadfs.ErrNotExist) {
+		return err
+	}
+	for dir := path.Dir(name); dir != "."; dir = path.Dir(dir) {
+		parent, parentErr := fs.getFileRecord(dir)
+		switch {
+		case parentErr == nil && !parent.Mode().IsDir():
+			return hackpadfs.ErrNotDir
+		case parentErr == nil, !errors.Is(parentErr, hackpadfs.ErrNotExist):
+			return err
+		}
+	}
+	return err
+}
+
+func (fs *FS) getFileRecord(path string) (*file, error) {
 	if !hackpadfs.ValidPath(path) {
 		return nil, hackpadfs.ErrInvalid
 	}
